@@ -14,32 +14,32 @@ package filters
 //@ macro bflt = (is(b, float32) || is(b, float64))
 
 //@ func filter "plus"
-//@ props C17 C03 C01
+//@ props C17 C03 C04 C01
 //@ panics nothing
 //@ assigns nothing
 //@ ensures sum: same(result, fadd(a, b))
 
 //@ func filter "minus"
-//@ props C17 C03 C01
+//@ props C17 C03 C04 C01
 //@ panics nothing
 //@ assigns nothing
 //@ ensures difference: same(result, fsub(a, b))
 
 //@ func filter "times"
-//@ props C17 C03 C01
+//@ props C17 C03 C04 C01
 //@ panics nothing
 //@ assigns nothing
 //@ ensures product: same(result, fmul(a, b))
 
 //@ func filter "modulo"
-//@ props C17 C03 C01
+//@ props C17 C03 C04 C01
 //@ panics nothing
 //@ assigns nothing
 //@ ensures zero: feq(b, i2f(0)) ==> result1 != nil
 //@ ensures remainder: !feq(b, i2f(0)) ==> result1 == nil && same(result0, math.Mod(a, b))
 
 //@ func filter "divided_by"
-//@ props C17 C18 C03 C01
+//@ props C17 C18 C03 C04 C01
 //@ panics nothing
 //@ ensures intDivisor: @bint && pl_int(b) != 0 && pl_int(b) <= 9223372036854775807 ==> result1 == nil && result0 == box(tdiv(f2i(a), pl_int(b)), int64)
 //@ ensures hugeDivisor: @bint && pl_int(b) > 9223372036854775807 ==> result1 == nil && result0 == box(0, int64)
@@ -49,13 +49,13 @@ package filters
 //@ ensures otherDivisor: !@bint && !@bflt ==> result1 != nil && result0 == nil
 
 //@ func filter "ceil"
-//@ props C17 C03 C01
+//@ props C17 C03 C04 C01
 //@ panics nothing
 //@ assigns nothing
 //@ ensures def: result == f2i(math.Ceil(a))
 
 //@ func filter "floor"
-//@ props C17 C03 C01
+//@ props C17 C03 C04 C01
 //@ panics nothing
 //@ assigns nothing
 //@ ensures def: result == f2i(math.Floor(a))
@@ -73,31 +73,31 @@ package filters
 //@ panics values.TypeError
 
 //@ func filter "append"
-//@ props C16 C03 C01
+//@ props C16 C03 C04 C01
 //@ panics nothing
 //@ assigns nothing
 //@ ensures concat: result == cat(s, suffix)
 
 //@ func filter "prepend"
-//@ props C16 C03 C01
+//@ props C16 C03 C04 C01
 //@ panics nothing
 //@ assigns nothing
 //@ ensures concat: result == cat(prefix, s)
 
 //@ func filter "upcase"
-//@ props C16 C03 C01
+//@ props C16 C03 C04 C01
 //@ panics nothing
 //@ assigns nothing
 //@ ensures delegates: result == strings.ToUpper(s)
 
 //@ func filter "downcase"
-//@ props C16 C03 C01
+//@ props C16 C03 C04 C01
 //@ panics nothing
 //@ assigns nothing
 //@ ensures delegates: result == strings.ToLower(s)
 
 //@ func filter "capitalize"
-//@ props C16 C03 C01
+//@ props C16 C03 C04 C01
 //@ panics nothing
 //@ assigns nothing
 //@ ghost w Int = 0
@@ -106,7 +106,7 @@ package filters
 //@ ensures firstCharacter: len(s) > 0 ==> 1 <= w && w <= len(s) && result == cat(strings.ToUpper(substr(s, 0, w)), substr(s, w, len(s)))
 
 //@ func filter "slice"
-//@ props C16 C03 C01
+//@ props C16 C03 C04 C01
 //@ overflow
 //@ panics values.TypeError
 //@ assigns alloc S$Int
@@ -121,7 +121,7 @@ package filters
 
 //@ func filter "first"
 //@ overflow
-//@ props C15 C03 C01
+//@ props C15 C03 C04 C01
 //@ panics nothing
 //@ assigns nothing
 //@ ensures empty: len(a) == 0 ==> result == nil
@@ -129,7 +129,7 @@ package filters
 
 //@ func filter "last"
 //@ overflow
-//@ props C15 C03 C01
+//@ props C15 C03 C04 C01
 //@ panics nothing
 //@ assigns nothing
 //@ ensures empty: len(a) == 0 ==> result == nil
@@ -137,7 +137,7 @@ package filters
 
 //@ func filters.reverseFilter
 //@ overflow
-//@ props C15 C03 C01
+//@ props C15 C03 C04 C01
 //@ panics nothing
 //@ assigns alloc S$Val
 //@ ensures fresh: is(result, []any) && fresh(as(result, []any)) && len(as(result, []any)) == len(a)
@@ -147,7 +147,7 @@ package filters
 //@ loop 1 invariant inputUnchanged: forall(k, 0, len(a), a[k] == old(a[k]))
 
 //@ func filter "compact"
-//@ props C15 C03 C01
+//@ props C15 C03 C04 C01
 //@ panics nothing
 //@ assigns alloc S$Val
 //@ ensures noNils: forall(k, 0, len(result), result[k] != nil)
@@ -157,7 +157,7 @@ package filters
 //@ loop 1 invariant inputUnchanged: forall(k, 0, len(a), a[k] == old(a[k]))
 
 //@ func filter "concat"
-//@ props C15 C03 C01
+//@ props C15 C03 C04 C01
 //@ panics nothing
 //@ assigns alloc S$Val
 //@ ensures length: len(result) == len(a) + len(b)
@@ -167,14 +167,14 @@ package filters
 
 // ---- sort / sort_natural: work on a fresh copy; the input array is never written (C15, C03)
 //@ func filters.sortFilter
-//@ props C15 C03 C01
+//@ props C15 C03 C04 C01
 //@ panics nothing
 //@ assigns S$Val
 //@ ensures fresh: fresh(result) && len(result) == len(array)
 //@ ensures inputUnchanged: forall(k, 0, len(array), array[k] == old(array[k]))
 
 //@ func (filters.keySortable).Swap
-//@ props C15 C03 C01
+//@ props C15 C03 C04 C01
 //@ panics nothing
 //@ assigns S$Val
 //@ requires inrange: 0 <= i && i < len(s.slice) && 0 <= j && j < len(s.slice)
@@ -184,7 +184,7 @@ package filters
 // round: half up, i.e. floor(n * 10^places + 0.5) / 10^places (the operator structure is
 // pinned; the numerical meaning of the float operations is the library's).
 //@ func filter "round"
-//@ props C17 C03 C01
+//@ props C17 C03 C04 C01
 //@ panics values.TypeError
 //@ assigns nothing
 //@ requires optional: places != nil
@@ -196,7 +196,7 @@ package filters
 // join (C18, C15): every element is unwrapped (ToLiquid) before it is formatted, nil elements
 // are skipped, order is kept, the input is not written
 //@ func filters.joinFilter
-//@ props C18 C15 C03 C01
+//@ props C18 C15 C03 C04 C01
 //@ panics values.TypeError
 //@ requires args: sep != nil
 //@ assigns alloc S$Str, alloc S$Val
@@ -216,7 +216,7 @@ package filters
 //@ assigns nothing
 
 //@ func filters.uniqFilter
-//@ props C01 C15 C03
+//@ props C01 C15 C03 C04
 //@ panics nothing
 //@ assigns alloc S$Val, alloc M$has$Val$Bool, alloc M$val$Val$Bool
 //@ loop 1 invariant fresh: freshOrNil(result) && sameold("S$Val")
